@@ -1,6 +1,7 @@
 //! Workloads and online checkers that need nothing but ruzstd itself (no FFI, no threads), so
 //! the same code runs natively, under AddressSanitizer and under Miri.
 
+pub mod hostile;
 pub mod ring;
 pub mod rng;
 pub mod xxh;
